@@ -101,6 +101,7 @@ structure ExitOK (n : Nat) (B : Vec α → Vec α) (g : Vec α) (Δ tol : α) (m
   le_prev  : res.q ≤ model B g st.z
   not_fuel : res.exit ≠ .fuel
   not_nan  : res.exit ≠ .alphaNaN
+  not_zero : res.exit ≠ .zeroGrad
   bdry     : res.exit.isBoundary = true → sqNorm res.s = Δ * Δ
   inter    : res.exit = .interior →
                sqNorm res.s < Δ * Δ ∧ res.st.r = vadd g (B res.s) ∧
@@ -212,7 +213,7 @@ theorem cgStep_spec (L : Lawful cs) (hB : SymLin n B) (hg : g.length = n) (hΔ :
         le_prev := by
           have := line_negcurv (model B g st.z) (sqNorm st.r) _ hi hR.le h1 hhi0.le
           rw [mdl hi] at hab; linarith
-        not_fuel := by simp, not_nan := by simp
+        not_fuel := by simp, not_nan := by simp, not_zero := by simp
         bdry := fun _ => hlo
         inter := by intro h; cases h
         neg := fun _ => h1
@@ -229,7 +230,7 @@ theorem cgStep_spec (L : Lawful cs) (hB : SymLin n B) (hg : g.length = n) (hΔ :
         le_prev := by
           have := line_negcurv (model B g st.z) (sqNorm st.r) _ hi hR.le h1 hhi0.le
           rw [mdl hi]; linarith
-        not_fuel := by simp, not_nan := by simp
+        not_fuel := by simp, not_nan := by simp, not_zero := by simp
         bdry := fun _ => hhi
         inter := by intro h; cases h
         neg := fun _ => h1
@@ -252,7 +253,7 @@ theorem cgStep_spec (L : Lawful cs) (hB : SymLin n B) (hg : g.length = n) (hΔ :
         le_prev := by
           have := line_before_alpha (model B g st.z) (sqNorm st.r) _ hi hR.le h1 hhi0.le hha
           rw [mdl hi]; linarith
-        not_fuel := by simp, not_nan := by simp
+        not_fuel := by simp, not_nan := by simp, not_zero := by simp
         bdry := fun _ => hhi
         inter := by intro h; cases h
         neg := by rintro (h | h) <;> cases h
@@ -272,7 +273,7 @@ theorem cgStep_spec (L : Lawful cs) (hB : SymLin n B) (hg : g.length = n) (hΔ :
         le_prev := by
           have := line_alpha (model B g st.z) (sqNorm st.r) (dot st.d (B st.d)) h1
           rw [mdl _]; linarith
-        not_fuel := by simp, not_nan := by simp
+        not_fuel := by simp, not_nan := by simp, not_zero := by simp
         bdry := by intro h; simp [Exit.isBoundary] at h
         inter := fun _ => ⟨hsq, I.resid hB _, h5⟩
         neg := by rintro (h | h) <;> cases h
